@@ -32,6 +32,8 @@ def shards(tier, seed):
     sel = lt[:: max(1, len(lt) // k)][:k] + ge[:: max(1, len(ge) // k)][:k]
     for t in sel:
         out.append(("toy_%d_%d_%d" % t.curve.key(), dict(kind="toy", key=t.curve.key(), ndig=24 if q else 64)))
+    out.append(("child_opt_toy", dict(kind="toy", key=sel[0].curve.key(), ndig=8, _pyopt="opt+hashseed")))
+    out.append(("child_opt_prod", dict(kind="prod", cname="SECP160r1", part=0, parts=3, reps=1, _pyopt="opt")))
     for c in lib.pick_curves(tier, seed, extra=3):
         parts = 2 if q else 4
         for i in range(parts):
@@ -212,6 +214,10 @@ def run(ctx, name, kind, **kw):
                 work.append(("dk", d, k))
         for j in range(6):
             work.append(("s0", j))
+        # arguments that are ordinary on their own but related to each other: k = d, n-d, d+1, 1/d, 2d; digest = bytes of d, k, n-d, dk
+        for d in ds[:: max(1, len(ds) // 4)]:
+            for k in (d, n - d, (d + 1) % n or 1, nt.inv(d, n), (2 * d) % n or 1, (d * d) % n or 1):
+                work.append(("rel", d, k))
         for rep in range(kw["reps"]):
             for w in work[kw["part"]:: kw["parts"]]:
                 if w[0] == "pub":
@@ -231,6 +237,11 @@ def run(ctx, name, kind, **kw):
                     dg = bytes(rng.getrandbits(8) for _ in range(L))
                     one(ctx, SK(d), c, dom, d, k, dg, True, "sig", "%s|dk|%s|%s" % (c.name, gen.scalar_class(d, n), gen.scalar_class(k, n)))
                     one(ctx, SK(d), c, dom, d, k, rng.choice((0, 1, n - 1, n, n + 1, rng.getrandbits(nbits + 9))), True, "sign_number", "%s|num|%s" % (c.name, gen.scalar_class(k, n)), via="sign_number")
+                elif w[0] == "rel":
+                    _, d, k = w
+                    for ev in (d, k, n - d, d * k % n, (n - k) % n, (d + k) % n):
+                        dg = ev.to_bytes(L, "big")
+                        one(ctx, SK(d), c, dom, d, k, dg, True, "sig", "%s|related_args" % c.name)
                 else:
                     # constructed s = 0: digest := bytes of (-r d mod n); needs e to survive truncation => byte-aligned orders use the
                     # full-length digest, others go through sign_number
